@@ -21,7 +21,12 @@ pub fn run<A: Cx>(d: &mut Drv<A>, focus: &str, scale: usize) {
     for n in lens(d, scale) {
         let off = 1 + d.rng.below(70);
         let t = d.rand_syms(off + n + 3);
-        d.emit(json!({"op": "fromsyms", "dst": 0, "c": A::NAME, "via": "iter", "syms": t}));
+        // the parent itself has a history (interactions between features)
+        if d.rng.chance(1, 2) {
+            d.produce(0, &t);
+        } else {
+            d.emit(json!({"op": "fromsyms", "dst": 0, "c": A::NAME, "via": "iter", "syms": t}));
+        }
         let x = sl(0, off, off + n);
         let far = n - 1 - d.rng.below(n.min(40)); // a position near the far end
         let mid = n / 2 + d.rng.below(7);
